@@ -137,6 +137,24 @@ class SymArray:
     def __rtruediv__(self, o): return self._ew(o, lambda a, b: b / a)
     def __pow__(self, n): return SymArray(self.shape, lambda *i: self.at(*i) ** n, self.guard)
     def __neg__(self): return SymArray(self.shape, lambda *i: -self.at(*i), self.guard)
+
+    def _inplace(self, o, f):
+        """numpy in-place operators mutate the array object (every alias sees the change): logged as a whole-array write"""
+        new = self._ew(o, f)
+        old = SymArray(self.shape, self._fn, self.guard)
+        old._memo = self._memo
+        # `new` was built from self.at: re-point it at the snapshot so that the update is not self-referential
+        snap_self = old
+        res = snap_self._ew(o, f)
+        self._fn, self._memo = res._fn, {}
+        from .autoloops import Region
+        sym.ctx().ghost.setdefault("writes", []).append((self, Region(None, self.ndim, {}, {}, SR(0), [])))
+        return self
+
+    def __iadd__(self, o): return self._inplace(o, lambda a, b: a + b)
+    def __isub__(self, o): return self._inplace(o, lambda a, b: a - b)
+    def __imul__(self, o): return self._inplace(o, lambda a, b: a * b)
+    def __itruediv__(self, o): return self._inplace(o, lambda a, b: a / b)
     def __lt__(self, o): return self._ew(o, lambda a, b: a < b)
     def __le__(self, o): return self._ew(o, lambda a, b: a <= b)
     def __gt__(self, o): return self._ew(o, lambda a, b: a > b)
@@ -278,7 +296,7 @@ class SymArray:
             self._fn = lambda i, k: ite(z3.And(k.e >= lo.e, k.e < hi.e), v, old.at(i, k))
             from .autoloops import Region
             writes.append((self, Region(None, 2, {}, {1: (lo.e, hi.e)}, v, [])))
-        elif isinstance(key, SymArray) and self.ndim == 1:       # a[idx_array] = scalar
+        elif isinstance(key, (SymArray, Cat)) and self.ndim == 1:       # a[idx_array] = scalar
             if isinstance(val, SymArray):
                 raise Unsupported("scatter of an array")
             v = val
@@ -463,6 +481,13 @@ class Cat:
                     return Cat(out)
             raise Undecided("prefix slice of a concatenation does not align with its blocks")
         raise Unsupported(f"index of concatenation {key!r}")
+
+    @property
+    def member(self):
+        ms = [getattr(b, "member", None) for b in self.blocks]
+        if any(m is None for m in ms):
+            return None
+        return lambda v: z3.Or(*[m(v) for m in ms]) if ms else z3.BoolVal(False)
 
     def __mul__(self, o): return self._zip(o, lambda a, b: a * b)
     __rmul__ = __mul__
